@@ -191,6 +191,10 @@ class Path:
             for a in ax:
                 s.add(a)
         r = s.check()
+        if r == z3.unknown:
+            # a loaded machine must not change the set of explored paths: one longer retry before giving up
+            s.set('timeout', self.ex.feas_timeout_ms * 8)
+            r = s.check()
         return r != z3.unsat
 
     def branch(self, cond, what='') -> bool:
@@ -660,6 +664,9 @@ class Path:
                 pass
             raise Unsupported('~ on flag')
         if isinstance(op, ast.USub):
+            if isinstance(v, SymFloat):
+                # -x flips the sign bit (also of NaN and zero)
+                return self.ex.intrinsics.float_neg(self, v)
             if isinstance(v, (int, float, Fraction)) and not is_z3(v):
                 return -v
             if is_fraclike(v):
@@ -896,6 +903,10 @@ class Path:
         if conc and not isinstance(a, SymFloat) and not isinstance(b, SymFloat):
             return self.binop_concrete(op, a, b)
         if isinstance(a, SymFloat) or isinstance(b, SymFloat) or isinstance(a, float) or isinstance(b, float):
+            if op is ast.Mult and isinstance(a, SymFloat) and isinstance(b, float):
+                return self.ex.intrinsics.float_mul_unit(self, a, b)
+            if op is ast.Mult and isinstance(b, SymFloat) and isinstance(a, float):
+                return self.ex.intrinsics.float_mul_unit(self, b, a)
             raise Unsupported('symbolic float arithmetic')
         if is_fraclike(a) or is_fraclike(b):
             return self.binop_real(op, a, b)
@@ -1056,6 +1067,9 @@ class Path:
                     return 0
                 if b & (b + 1) == 0:          # 2^k - 1
                     return simp(x % (b + 1))
+                low = b & -b
+                if (b // low) & (b // low + 1) == 0:      # contiguous run of ones: (2^w - 1) << k
+                    return simp(((x / low) % (b // low + 1)) * low)
                 # general non-negative constant: sum of its set bits
                 terms = []
                 k = 0
@@ -1088,16 +1102,16 @@ class Path:
         # x & (x - 1): power-of-two test
         d = simp(as_z3int(a) - as_z3int(b))
         if isinstance(d, int) and d in (1, -1):
-            big = a if d == 1 else b
-            # big & (big - 1) clears the lowest set bit of big.  Modelled by a fresh integer r with the
-            # facts (law CL, self-tested in tools/selftest_c06.py): for big >= 1: 0 <= r < big and
-            # (r == 0  <=>  big == 2^(bit_length(big)-1)); for big == 0: r == 0.  Negative big: unsupported.
-            bz = as_z3int(big)
-            if self.branch(simp(bz < 0), 'x&(x-1): x<0'):
+            big = as_z3int(a if d == 1 else b)
+            # big & (big - 1) clears the lowest set bit: big - 2^tz(big) for big > 0; 0 & -1 == 0
+            if self.branch(simp(big < 0), 'x&(x-1): x<0'):
                 raise Unsupported('x & (x-1) with negative x')
-            r = z3.Int(self.fresh_name('clrlow'))
-            self.assume(z3.And(r >= 0, z3.Implies(bz == 0, r == 0),
-                               z3.Implies(bz >= 1, z3.And(r < bz, (r == 0) == (bz == theory.pow2(theory.bl(bz) - 1))))), fact=True)
+            if self.branch(simp(big == 0), 'x&(x-1): x==0'):
+                return 0
+            r = big - theory.pow2(theory.tz(big))
+            # law CL (self-tested in tools/selftest_c06.py), a consequence stated explicitly so that proofs about
+            # powers of two need not go through tz: 0 <= r < big and (r == 0  <=>  big == 2^(bit_length(big)-1))
+            self.assume(z3.And(r >= 0, r < big, (r == 0) == (big == theory.pow2(theory.bl(big) - 1))), fact=True)
             return r
         raise Unsupported(f'symbolic & of {a} and {b}')
 
@@ -1193,6 +1207,11 @@ class Path:
             except TypeError:
                 raise SymRaise(mk_exc('TypeError'))
         if isinstance(a, (SymFloat, float)) or isinstance(b, (SymFloat, float)):
+            if isinstance(a, SymFloat) and isinstance(b, (int, float)) and not isinstance(b, bool) and b == 0:
+                return self.ex.intrinsics.float_compare_zero(self, op.__name__, a)
+            if isinstance(b, SymFloat) and isinstance(a, (int, float)) and not isinstance(a, bool) and a == 0:
+                flip = {'Lt': 'Gt', 'Gt': 'Lt', 'LtE': 'GtE', 'GtE': 'LtE'}[op.__name__]
+                return self.ex.intrinsics.float_compare_zero(self, flip, b)
             raise Unsupported('symbolic float comparison')
         if is_fraclike(a) or is_fraclike(b):
             x, y = as_z3real(a), as_z3real(b)
@@ -1429,6 +1448,9 @@ class Path:
                 return FuncV(m, v)
             raise SymRaise(mk_exc('AttributeError'))
         if isinstance(v, ExtV):
+            if v.name == 'sys.hash_info' and attr == 'inf':
+                from .intrinsics import PYHASH_INF
+                return PYHASH_INF
             return ExtV(f'{v.name}.{attr}')
         if is_intlike(v):
             if attr in ('bit_length', 'to_bytes', 'as_integer_ratio', 'is_integer', 'bit_count'):
@@ -1653,7 +1675,7 @@ class Path:
             if r is not seqs.NOT_HANDLED:
                 return r
         if not force_inline:
-            c = self.ex.contract_for(info)
+            c = self.ex.contract_for(info, self, args, kwargs)
             if c is not None:
                 return self.ex.call_contract(self, c, info, args, kwargs, is_init)
             if info.cls is None and info.name in self.ex.opaque_specs and not kwargs:
